@@ -1,6 +1,8 @@
 package main
 
 import (
+	"time"
+	"sync"
 	"archive/tar"
 	"bytes"
 	"compress/gzip"
@@ -217,8 +219,90 @@ func genC14(r *rng, tier string, res *Result) {
 		}
 		db.Close()
 	}
+	// the copy handed to the caller is made while the segment cannot be unmapped: readers of a large
+	// value (a copy that takes milliseconds) on the memory-mapped file system, racing with Close and
+	// with Delete + Compact removing the segment, must never touch unmapped memory
+	for i := 0; i < scale(tier, 8, 80); i++ {
+		dir := filepath.Join(tmp, fmt.Sprintf("race%d", i))
+		withCompact := i%2 == 1
+		fault := c14Race(r, dir, withCompact)
+		res.Tags["reads_racing_with_unmapping"]++
+		if fault != "" {
+			what := "Close"
+			if withCompact {
+				what = "Delete + Compact"
+			}
+			res.Findings = append(res.Findings, &Finding{Kind: "spec", Case: fmt.Sprintf("C14/race/%d", i), Cmd: "Get / GetAppend of a large value on fs.OSMMap racing with " + what,
+				Impl: []string{clip(fault)}, Expected: []string{"the read returns the value, nil or an error; no fault"},
+				Program: []string{"open (fs.OSMMap)", "put big <8 MiB>", "goroutine: loop Get(big) / GetAppend(big, <prefix>)", "main: " + what}})
+			break
+		}
+	}
 	res.SpecChecked = res.Tags["slices_kept"]
 	res.Samples = append(res.Samples, []byte(`"60-160 calls keeping every returned slice; then overwrite all, Compact, delete all, Compact, Close; all kept slices compared with private copies under SetPanicOnFault"`))
+}
+
+// c14Race returns the text of a fault / panic observed in a reader, or "".
+func c14Race(r *rng, dir string, withCompact bool) string {
+	o := &pogreb.Options{FileSystem: fs.OSMMap}
+	pogreb.VerifSetThresholds(o, 64<<20, 512, math.Float32frombits(fragBits(0.0001)))
+	db, err := pogreb.Open(dir, o)
+	if err != nil {
+		return ""
+	}
+	big := r.bytes(8 << 20)
+	if err := db.Put([]byte("big"), big); err != nil {
+		db.Close()
+		return ""
+	}
+	var mu sync.Mutex
+	fault := ""
+	stop := make(chan struct{})
+	var wg sync.WaitGroup
+	for g := 0; g < 2; g++ {
+		wg.Add(1)
+		go func(g int) {
+			defer wg.Done()
+			defer debug.SetPanicOnFault(debug.SetPanicOnFault(true))
+			defer func() {
+				if rec := recover(); rec != nil {
+					mu.Lock()
+					fault = fmt.Sprint("reader faulted while the value was copied out: ", rec)
+					mu.Unlock()
+				}
+			}()
+			prefix := make([]byte, 16<<20)
+			for {
+				select {
+				case <-stop:
+					return
+				default:
+				}
+				if g == 0 {
+					_, _ = db.Get([]byte("big"))
+				} else {
+					_, _ = db.GetAppend([]byte("big"), prefix[:len(prefix):len(prefix)])
+				}
+			}
+		}(g)
+	}
+	time.Sleep(time.Duration(1+r.intn(5)) * time.Millisecond)
+	if withCompact {
+		// make the segment garbage, roll over, compact: the file is unmapped and removed
+		for j := 0; j < 6; j++ {
+			_ = db.Delete([]byte("big"))
+			_ = db.Put([]byte("pad"), big[:1<<20])
+			_, _ = db.Compact()
+			_ = db.Put([]byte("big"), big)
+			time.Sleep(time.Millisecond)
+		}
+	}
+	_ = db.Close()
+	close(stop)
+	wg.Wait()
+	mu.Lock()
+	defer mu.Unlock()
+	return fault
 }
 
 // ---------------------------------------------------------------- C19: recovery cost bounded by the data on disk
